@@ -1,2 +1,23 @@
-(* placeholder until the theorems are integrated *)
-From SE Require Import Model.System.
+(* C08 - A conflicting event is dropped alone and harms nothing else. *)
+From SE Require Import Spec.PipelineSpec Spec.SeriesSpec Proofs.PipelineProofs Proofs.SeriesProofs.
+
+(* a sample whose name is claimed by another type, or that would share a _bucket/_count/_sum
+   series with a histogram or summary (in either direction), is refused ... *)
+Theorem C08_conflict_detected : stmt_conflict_detected.
+Proof. exact conflict_detected_ok. Qed.
+Print Assumptions C08_conflict_detected.
+
+(* ... and a refused sample leaves every name, vector, series, value and clock untouched *)
+Theorem C08_conflict_isolated : stmt_conflict_isolated.
+Proof. exact conflict_isolated_ok. Qed.
+Print Assumptions C08_conflict_isolated.
+Theorem C08_flat_conflict_isolated : stmt_flat_conflict_isolated.
+Proof. exact flat_conflict_isolated_ok. Qed.
+Print Assumptions C08_flat_conflict_isolated.
+
+(* later samples are applied as if the refused one had never arrived (the state is the same), and
+   the conflict rule is complete: everything the registry lets through keeps scrapes succeeding *)
+Theorem C08_scrapes_keep_succeeding : forall pf uni_word re_match heur_bt re_compiles CS c_get c_add c_reset builtins,
+  stmt_scrape_ok pf uni_word re_match heur_bt re_compiles CS c_get c_add c_reset builtins.
+Proof. intros. unfold stmt_scrape_ok. intros. eapply scrape_ok_ok; eauto. Qed.
+Print Assumptions C08_scrapes_keep_succeeding.
